@@ -11,6 +11,7 @@ import (
 	"github.com/pip-services3-gox/pip-services3-expressions-gox/calculator"
 	"github.com/pip-services3-gox/pip-services3-expressions-gox/calculator/parsers"
 	"github.com/pip-services3-gox/pip-services3-expressions-gox/calculator/variables"
+	"github.com/pip-services3-gox/pip-services3-expressions-gox/csv"
 	rio "github.com/pip-services3-gox/pip-services3-expressions-gox/io"
 	"github.com/pip-services3-gox/pip-services3-expressions-gox/mustache"
 	mparsers "github.com/pip-services3-gox/pip-services3-expressions-gox/mustache/parsers"
@@ -238,6 +239,19 @@ func c05Objects() []c05Object {
 				})
 				return out
 			})
+		}
+	}})
+	// a CSV tokenizer with a separator above U+00FF; inputs with other characters of that region before it
+	objs = append(objs, c05Object{name: "csv-tokenizer+wide-separator", pool: []string{"a\u2016b", "\u2116", "\u2116\u2016b", "x", "\u2016", "a,b", "\u2116a\u2016\u2116", "\"\u2016\"\u2016c"}, make: func() func(string) string {
+		t := csv.NewCsvTokenizer()
+		t.SetFieldSeparators([]rune{0x2016})
+		c05LastInst = []interface{}{t}
+		return func(in string) string {
+			r := tokenizeOn(t, in)
+			if r.failed() {
+				return "failed(" + r.failStr() + ")"
+			}
+			return tokStr(r.toks)
 		}
 	}})
 	return objs
@@ -786,7 +800,7 @@ func init() {
 		// the first fresh-instance observation per input is the pristine reference: the hostile neighbour
 		// (decoy.go) only starts after the first cases of a shard have pinned them
 		LateNeighbour: true,
-		Rule: "explicit operation histories on ONE real instance of each of 14 object kinds (an ExpressionCalculator cleared after every input with valued automatic variables, 4 tokenizers x {no options, parser options}, ExpressionParser, ExpressionCalculator, MustacheParser, MustacheTemplate, MustacheTemplate cleared after every input and rendering with one caller-owned map): every ordered pair (thorough: triple) of inputs from a pool with every registered multi-character symbol alone and next to its siblings, every token class, unterminated literals, malformed programs; " +
+		Rule: "explicit operation histories on ONE real instance of each of 15 object kinds (a CSV tokenizer with a separator above U+00FF, an ExpressionCalculator cleared after every input with valued automatic variables, 4 tokenizers x {no options, parser options}, ExpressionParser, ExpressionCalculator, MustacheParser, MustacheTemplate, MustacheTemplate cleared after every input and rendering with one caller-owned map): every ordered pair (thorough: triple) of inputs from a pool with every registered multi-character symbol alone and next to its siblings, every token class, unterminated literals, malformed programs; " +
 			"after each step the full observation (tokens with positions / compiled program, variable names, error, values under two variable sets / rendering) must equal a freshly constructed instance's; plus every aborted iteration (SetReader, k fetches, abandon) followed by every input, and every pattern in {0,1,2}^m of HasNextToken queries before each fetch; the alternate entry points (ParseTokens / SetOriginalTokens on the instance's own token list, the ...FromExpression / FromTokens / FromString constructors, Clear(), the ...ToStrings tokenizer calls) must give what the main entry point gives on a fresh instance; a new instance must be unaffected after every slice/map handed out by another instance's getters was overwritten and its collections and states were cleared (and, throughout, by whatever this process did before: the fresh-instance observation per input is pinned the first time it is made); one compiled expression under every history of <=3 (thorough 5) steps out of 5 evaluation calls (default variables, two collections, an empty one, explicit functions) and 5 variable replacements (remove+add, SetValue, Clear on a supplied collection and on the defaults), every value compared with a fresh calculator whose variables went through the replacements only; non-trivial = histories of >=2 steps",
 		Assume: []string{"an outcome that is identical on the fresh instance (including a panic) is not a history effect and is left to C03"},
 		Spaces: func(tier string) []fw.Space {
